@@ -25,7 +25,9 @@ def cols(ch, wd):
 def blank_text(s, wd):
     """the independent text-level specification: every "…" region of a row (no embedded quote
     or backslash) replaced by as many spaces as it has display columns; returns the blanked
-    text and the list of (col, row, content)"""
+    text and the list of (col, row, content). An escaped quote `\"` does not end the region.
+    The property's quantifier excludes embedded quotes/backslashes; they are generated all the same
+    (with the code's own reading of `\"`), because "verbatim" in the statement covers them."""
     out_rows = []
     segs = []
     for y, row in enumerate(s.split("\n")):
@@ -35,7 +37,13 @@ def blank_text(s, wd):
         n = len(row)
         while i < n:
             if row[i] == '"':
-                j = row.find('"', i + 1)
+                # the closing quote: `\"` inside the region is an escaped quote and stays in the text verbatim
+                # (util.rs escape_string: `escape_sequence | none_of("\"")`, greedy, no backtracking)
+                j = i + 1
+                while j < n and row[j] != '"':
+                    j += 2 if (row[j] == "\\" and j + 1 < n and row[j + 1] == '"') else 1
+                if j >= n:
+                    j = -1
                 if j < 0:
                     # unbalanced: everything from here on is ordinary text
                     res.append(row[i:])
@@ -60,7 +68,11 @@ def gen_row(rng, maxsegs=3):
     for k in range(nseg + 1):
         parts.append("".join(rng.choice(OUT_CHARS) for _ in range(rng.below(8))))
         if k < nseg:
-            parts.append('"' + "".join(rng.choice(SEG_CHARS) for _ in range(rng.below(7))) + '"')
+            seg = [rng.choice(SEG_CHARS) for _ in range(rng.below(7))]
+            if rng.chance(1, 6) and seg:
+                # an escaped quote or a lone backslash inside the region (shown verbatim, backslash included)
+                seg[rng.below(len(seg))] = rng.choice(['\\"', "\\", '\\"x\\"', "\\\\"])
+            parts.append('"' + "".join(seg) + '"')
     if rng.chance(1, 12):
         parts.append('"' + "tail")
     return "".join(parts)
